@@ -92,12 +92,21 @@ inductive Out (α : Type) where
   | rows (rs : List (List α))
   | error
 
+/-- What `arrow(size)` hands back for a frame holding `rows`.  `to_arrow` is a function of the rows (and names) —
+that reading of the code is right only while nothing on the conversion path stores anything on the frame
+(`Gen.ArrowExpr.conversionWritesFrame`, read from the source: an attribute of `self` / `dataset` assigned in
+`DataFrame.arrow`, `DataFrame.pandas`, `to_arrow`, `to_pandas`).  If something is stored the model does not claim to
+know what later conversions return: it answers `error`, and every theorem about conversions stops checking. -/
+def convert (names : List String) (rows : List (List α)) (size : Option Int) : Out α :=
+  if Gen.ArrowExpr.conversionWritesFrame then .error else .table (toArrow names rows size)
+
 /-- One call, line by line.  `to_arrow`: `dataset.head(size)` / `dataset.rowcount` materialise the
 frame the call was made on, then the table is built from the (limited) list.  A fetch on a lazy frame
 reads the source itself; on an eager frame it reads the cursor, which is independent of the list;
-`fetch*` refuse to run after `append`; `append` on a lazy frame raises (`_rows` has no `append`). -/
+`fetch*` refuse to run after `append`; `append` on a lazy frame materialises it first (dataframe.py `append`:
+`if not isinstance(self._rows, list): self.materialize(); self._cursor = None`), then adds the row. -/
 def step (names : List String) (f : Fr (List α)) : Op (List α) → Fr (List α) × Out α
-  | .arrow size => (f.materialize, .table (toArrow names f.materialize.listRows size))
+  | .arrow size => (f.materialize, convert names f.materialize.listRows size)
   | .observe => (f.materialize, .rows f.materialize.listRows)
   | .head k => (f.materialize, .rows (head k f.materialize.listRows))
   | .fetch k =>
@@ -110,7 +119,7 @@ def step (names : List String) (f : Fr (List α)) : Op (List α) → Fr (List α
       (.eager rows (some (rest.drop (k.getD rest.length))), .rows (rest.take (k.getD rest.length)))
   | .append r =>
     match f with
-    | .lazy s => (.lazy s, .error)
+    | .lazy s => (.eager (drain s ++ [r]) none, .rows [])
     | .eager rows _ => (.eager (rows ++ [r]) none, .rows [])
 
 /-- A history of calls on one frame: the outputs in order, and the frame afterwards. -/
